@@ -50,9 +50,16 @@ SIG = {
                     [('data', 'List Int'), ('frombits', 'Int'), ('tobits', 'Int'), ('pad', 'Bool')], 'Option (List Int)'),
     # script assembly: a token is an opcode name / a hex string (modelled by the bytes it denotes) / an int
     'script_to_bytes': ('script.py', 'Script.to_bytes', [('OPS', 'List (String × Bytes)'), ('self_script', 'List Py.PyTok')], 'Bytes'),
+    # tagged hashes of utils.py and the message-signing prefix (str arguments are modelled by their UTF-8 bytes)
+    'utils_tagged_hash': ('utils.py', 'tagged_hash', [('sha256', 'Bytes → Bytes'), ('data', 'Bytes'), ('tag', 'Bytes')], 'Bytes'),
+    'tapbranch_tagged_hash': ('utils.py', 'tapbranch_tagged_hash',
+                              [('sha256', 'Bytes → Bytes'), ('thashed_a', 'Bytes'), ('thashed_b', 'Bytes')], 'Bytes'),
+    'add_magic_prefix': ('utils.py', 'add_magic_prefix', [('message', 'Bytes')], 'Bytes'),
     # script disassembly (works on the bytes the hex string denotes)
     'script_from_raw': ('script.py', 'Script.from_raw',
                         [('CODEOPS', 'List (Bytes × String)'), ('scriptrawhex', 'Bytes'), ('has_segwit', 'Bool')], 'List Py.PyTok'),
+    'tapleaf_tagged_hash': ('utils.py', 'tapleaf_tagged_hash',
+                            [('sha256', 'Bytes → Bytes'), ('OPS', 'List (String × Bytes)'), ('script', 'List Py.PyTok')], 'Bytes'),
     # transaction serialisation: objects are records of their fields (PyTxIn, PyTxOut, PyWit)
     'txwitness_to_bytes': ('transactions.py', 'TxWitnessInput.to_bytes', [('self_stack', 'List Bytes')], 'Bytes'),
     'txoutput_to_bytes': ('transactions.py', 'TxOutput.to_bytes',
@@ -106,6 +113,7 @@ WHILE_FUEL = {'convertbits': '(Int.toNat bits + 1)',
               'script_from_raw': '(List.length scriptraw + 1)'}
 # return types of translated callees that are lists (for `+` -> `++`)
 LIST_RET = {'bech32_hrp_expand', 'bech32_create_checksum'}
+STR_UTF8 = {'utils_tagged_hash', 'tapbranch_tagged_hash', 'tapleaf_tagged_hash', 'add_magic_prefix'}
 POINT_RET = {'point_add': 'schnorr_point_add', 'point_mul': 'schnorr_point_mul', 'lift_x': 'schnorr_lift_x'}
 CALLS = {'rol': 'rmd_rol', 'fi': 'rmd_fi', '_push_integer': 'push_integer', 'vi_to_int': 'vi_to_int',
          'encode_varint': 'encode_varint', 'prepend_compact_size': 'prepend_compact_size',
@@ -150,7 +158,7 @@ class Tr:
             if isinstance(n.value, int): return f'({n.value} : Int)'
             if isinstance(n.value, bytes): return blit(n.value)
             if n.value is None: return 'none'
-            if isinstance(n.value, str) and 'p' in s.fconsts: return blit(n.value.encode())     # a str that only flows into .encode()
+            if isinstance(n.value, str) and ('p' in s.fconsts or s.name in STR_UTF8): return blit(n.value.encode())     # a str that only flows into .encode()
             s.fail(n, 'constant')
         if isinstance(n, ast.Name) and n.id in s.tokvars: return f'(Py.tokInt {n.id})'      # a token used as a number (under isinstance(token, int))
         if isinstance(n, ast.Name) and n.id == 'OP_CODES' and 'OPS' in s.optables: return 'OPS'
@@ -223,6 +231,8 @@ class Tr:
             return f'(Py.inTableB CODEOPS {s.e(n.left)})'
         if isinstance(n, ast.Compare) and len(n.ops) == 1:
             a, b = s.e(n.left), s.e(n.comparators[0])
+            if isinstance(n.ops[0], ast.Lt) and s.isbytes(n.left) and s.isbytes(n.comparators[0]):
+                return f'(Py.bytesLt {a} {b})'                   # Python compares bytes lexicographically
             op = {ast.Lt: '<', ast.LtE: '≤', ast.Gt: '>', ast.GtE: '≥', ast.Eq: '==', ast.NotEq: '!='}.get(type(n.ops[0]))
             if isinstance(n.ops[0], ast.Is) and b == 'none' and s.ispoint(n.left): return f'(Option.isNone {a})'
             if isinstance(n.ops[0], ast.IsNot) and b == 'none' and s.ispoint(n.left): return f'(Option.isSome {a})'
@@ -350,7 +360,7 @@ class Tr:
             return t
         if isinstance(n, ast.Constant) and isinstance(n.value, bool): return t
         if isinstance(n, ast.Call) and isinstance(n.func, ast.Name) and n.func.id in ('isinstance', 'is_infinite', 'has_even_y', 'schnorr_verify'): return t
-        if t.startswith('(Py.tokInTable') or t.startswith('(Py.inTableB'): return t
+        if t.startswith('(Py.tokInTable') or t.startswith('(Py.inTableB') or t.startswith('(Py.bytesLt'): return t
         if isinstance(n, ast.Name) and n.id in s.boolvars: return t
         if isinstance(n, ast.Attribute) and 'self_' + n.attr in s.boolvars: return t
         if s.isbytes(n): return f'(!({t}).isEmpty)'
@@ -365,6 +375,8 @@ class Tr:
                 return s.eff(f'Py.pt{f.id.upper()} {s.e(args[0])}')
             if f.id == 'is_infinite' and len(args) == 1 and s.ispoint(args[0]): return f'(Option.isNone {s.e(args[0])})'
             if f.id == 'pow' and len(args) == 3: return s.eff(f'Py.powMod {s.e(args[0])} {s.e(args[1])} {s.e(args[2])}')
+            if f.id == 'tagged_hash' and s.name in STR_UTF8 and 'sha256' in s.declared and len(args) == 2:
+                return s.eff(f'utils_tagged_hash sha256 {s.e(args[0])} {s.e(args[1])}')
             if f.id in SCH_CALLS and 'p' in s.fconsts:
                 nm, sha = SCH_CALLS[f.id]
                 return s.eff(f'{nm} ' + ('sha256 ' if sha else '') + ' '.join(s.e(a) for a in args))
@@ -423,6 +435,10 @@ class Tr:
             if f.attr == 'to_bytes' and not args and isinstance(f.value, ast.Attribute) and isinstance(f.value.value, ast.Name) \
                     and f.value.value.id == 'self' and 'self_' + f.value.attr in s.toklists:
                 return s.eff(f'script_to_bytes OPS self_{f.value.attr}')            # self.script_sig.to_bytes()
+            if f.attr == 'to_bytes' and not args and isinstance(f.value, ast.Name) and f.value.id in s.toklists and 'OPS' in s.optables:
+                return s.eff(f'script_to_bytes OPS {f.value.id}')                  # script.to_bytes() on a Script argument
+            if f.attr == 'encode' and isinstance(f.value, ast.Name) and f.value.id in s.bytesvars and len(args) <= 1:
+                return f.value.id       # str.encode("utf-8") of a str modelled by its UTF-8 bytes
             if f.attr == 'to_bytes' and not args and isinstance(f.value, ast.Name) and f.value.id in s.recvars:
                 fn_, ops, fields = s.recvars[f.value.id]
                 return s.eff(f'{fn_} ' + ('OPS ' if ops else '') + ' '.join(f'{f.value.id}.{x}' for x in fields))
@@ -743,6 +759,7 @@ def main():
         consts = mods['constants']
         for k in ('TYPE_ABSOLUTE_TIMELOCK', 'TYPE_RELATIVE_TIMELOCK', 'TYPE_REPLACE_BY_FEE'):
             CONSTS[k] = f'({getattr(consts, k)} : Int)'
+        CONSTS['LEAF_VERSION_TAPSCRIPT'] = f'({consts.LEAF_VERSION_TAPSCRIPT} : Int)'
         for k in ('ABSOLUTE_TIMELOCK_SEQUENCE', 'REPLACE_BY_FEE_SEQUENCE'):
             CONSTS[k] = blit(getattr(consts, k))
         b32 = mods['bech32']
